@@ -22,10 +22,10 @@ import (
 
 type c15lExp struct {
 	exported, shuts, flushes, afterSD int
-	bodies                           map[string]int // body of every exported record (bodies are unique per Emit)
-	honourCtx                        bool           // Shutdown / ForceFlush report an ended context (after doing their work)
-	provDown                         *bool          // (concurrent drivers) a provider Shutdown has returned nil
-	afterProvDown                    int            // Export calls that started after that
+	bodies                            map[string]int // body of every exported record (bodies are unique per Emit)
+	honourCtx                         bool           // Shutdown / ForceFlush report an ended context (after doing their work)
+	provDown                          *bool          // (concurrent drivers) a provider Shutdown has returned nil
+	afterProvDown                     int            // Export calls that started after that
 }
 
 func (e *c15lExp) Export(_ context.Context, rs []Record) error {
